@@ -270,6 +270,8 @@ def query(ctx, p):
             ctx.require(eq_seq(list(md), nodes), "multi.asdict does not follow view order")
             ctx.require(all(md[n]["degree"] == d[n] for n in nodes), "multi disagrees with the single stat")
             ctx.require(m.aslist() == [[d[n], len([e for e in node[n] if len(edge[e]) == 2])] for n in nodes], "multi.aslist disagrees")
+            me = H.edges.multi(["size", "order"]).asdict()
+            ctx.require(nets.same(me, {e: {"size": len(edge[e]), "order": len(edge[e]) - 1} for e in edges}), "edge multi-stat disagrees with the single stats")
             es = H.edges.size
             ctx.require(eq_seq(list(es.asdict()), edges) and es.aslist() == [len(edge[e]) for e in edges], "edge stat outputs disagree")
             if nodes:
@@ -323,6 +325,16 @@ def dquery(ctx, p):
         ctx.require(nets.same(D.nodes.degree(weight="w").asdict(), {n: sum(w[e] for e in inm[n] | outm[n]) for n in nodes}), "weighted degree differs from its definition")
         ctx.require(nets.same(D.nodes.in_degree(weight="w").asdict(), {n: sum(w[e] for e in inm[n]) for n in nodes}), "weighted in_degree differs from its definition")
         ctx.require(nets.same(D.nodes.out_degree(order=k, weight="w").asdict(), {n: sum(w[e] for e in outm[n] if osz(e)) for n in nodes}), "weighted out_degree(order) differs from its definition")
+        for fname, ms in (("degree", {n: inm[n] | outm[n] for n in nodes}), ("in_degree", inm), ("out_degree", outm)):
+            f = getattr(D.nodes, fname)
+            ctx.require(nets.same(f(order=k, weight="w").asdict(), {n: sum(w[e] for e in ms[n] if osz(e)) for n in nodes}), f"weighted {fname}(order) differs from its definition")
+            ctx.require(nets.same(f(weight="w").asdict(), {n: sum(w[e] for e in ms[n]) for n in nodes}), f"weighted {fname} differs from its definition")
+            ctx.require(nets.same(f(order=k).asdict(), {n: len([e for e in ms[n] if osz(e)]) for n in nodes}), f"{fname}(order) differs from its definition")
+            ctx.require(nets.same(f.asdict(), {n: len(ms[n]) for n in nodes}), f"{fname} differs from its definition")
+        mm = D.edges.multi(["size", "tail_size", "head_size"]).asdict()
+        ctx.require(nets.same(mm, {e: {"size": len(both[e]), "tail_size": len(tail[e]), "head_size": len(head[e])} for e in edges}), "directed edge multi-stat disagrees with the single stats")
+        mn = D.nodes.multi(["degree", "in_degree", "out_degree"]).aslist()
+        ctx.require(mn == [[len(inm[n] | outm[n]), len(inm[n]), len(outm[n])] for n in nodes], "directed node multi-stat disagrees with the single stats")
         deg = {n: len(inm[n] | outm[n]) for n in nodes}
         ctx.require(nets.same(D.edges.size(degree=d).asdict(), {e: len([n for n in both[e] if deg[n] == d]) for e in edges}), "size(degree) differs from its definition")
         ctx.require(nets.same(D.edges.tail_size(degree=d).asdict(), {e: len([n for n in tail[e] if deg[n] == d]) for e in edges}), "tail_size(degree) differs from its definition")
